@@ -484,6 +484,23 @@ func runC10(r *core.Run) {
 							repsList = append(repsList, v)
 						}
 					}
+					if lay == "C" || lay == "S" {
+						// large counts: runs of the result that are long in BYTES (copy loops that switch strategy by run length);
+						// counts chosen on both sides of powers of two, up to runs of 70 one-byte elements
+						for _, k := range []int{5, 6, 7, 9, 10, 11, 15, 17, 18, 33, 34, 35, 66, 67, 70} {
+							if k > 20 && len(s) > 2 {
+								continue
+							}
+							repsList = append(repsList, []int{k})
+						}
+						if n >= 2 && n <= 4 {
+							v := make([]int, n)
+							for i := range v {
+								v[i] = 6 + 5*i
+							}
+							repsList = append(repsList, v)
+						}
+					}
 					repsList = append(repsList, make([]int, n+1)) // non-fitting count vector
 					for _, reps := range repsList {
 						for _, api := range []string{"method", "func", "reuse"} {
